@@ -4,7 +4,7 @@
 from collections import defaultdict
 
 from jaqalpaq.core.algorithm.visitor import Visitor
-from jaqalpaq.core import Macro
+from jaqalpaq.core import Macro, NamedQubit, Parameter
 from jaqalpaq.error import JaqalError
 
 
@@ -65,7 +65,14 @@ class UsedQubitIndicesVisitor(Visitor):
         # Note: This could be more elegant with a is_macro method on gates
         if isinstance(obj.gate_def, Macro):
             context = context or {}
-            macro_context = {**context, **obj.parameters}
+            # The arguments are written in the caller's scope: resolve
+            # them there before binding them to the callee's parameters,
+            # which may have the same names.
+            arguments = {
+                name: self.resolve_argument(arg, context)
+                for name, arg in obj.parameters.items()
+            }
+            macro_context = {**context, **arguments}
             macro_body = obj.gate_def.body
             return self.visit(macro_body, macro_context)
         else:
@@ -75,6 +82,18 @@ class UsedQubitIndicesVisitor(Visitor):
                 else:
                     self.merge_into(indices, self.visit(param, context=context))
             return indices
+
+    def resolve_argument(self, arg, context):
+        """Return the macro argument with the caller's parameters filled in."""
+        if isinstance(arg, Parameter):
+            return context.get(arg.name, arg)
+        if isinstance(arg, NamedQubit):
+            try:
+                reg, idx = arg.resolve_qubit(context)
+            except JaqalError:
+                return arg
+            return reg[idx]
+        return arg
 
     def visit_Parameter(self, obj, context=None):
         return self.visit(obj.resolve_value(context=context), context=context)
